@@ -216,15 +216,25 @@ def _e2e(sh, rec):
         alts = (False, True) if thorough and kind != "ns3d" else (False,)
         if thorough and kind == "ns3d" and ci % 4 == 0:
             alts = (False, True)
-        for alt in alts:
+        if not thorough and ci % 2:
+            alts = (True,)  # quick tier: every other configuration runs on the tall (2-D) / permuted (3-D) pool shape
+        # sibling objects: a SECOND simulator in the same process with the same grid shape, precision and options but another
+        # x_range (dx), then the FIRST object once more (a module-level cache keyed without dx / overwritten by the sibling)
+        variants = [(a, None) for a in alts]
+        if ci % 3 == 1 or (thorough and ci % 3 == 0):
+            variants += [(alts[0], "sibling"), (alts[0], "again")]
+        sim_first = None
+        for alt, sib in variants:
             shape, xr = _pool(kind, cfg, alt)
+            if sib == "sibling":
+                xr = xr * 2.5
             d = len(shape)
             w = cfg.get("width", 0)
             order = cfg["filter"][0] if cfg.get("filter") else 0
             m = w + order + 6
             reach = (1 if cfg.get("forcing") else 0) + (2 if kind != "ns3d" else 1) + 1 + order
             label = {k: cfg[k] for k in cfg if k not in ("kind",)}
-            meta = {"sim": kind, **label, "shape": shape, "x_range": xr, "margin": m, "reach": reach}
+            meta = {"sim": kind, **label, "shape": shape, "x_range": xr, "margin": m, "reach": reach, "object": sib or "primary"}
             if m - reach < w or min(shape) - 2 * m < 2:
                 rec.count("e2e_cases_discarded")
                 continue
@@ -233,17 +243,30 @@ def _e2e(sh, rec):
                 bcfg["field_type"] = "vector" if cfg["variant"] == "3d-vector" else "scalar"
             if cfg.get("filter"):
                 bcfg["filter"] = tuple(cfg["filter"])
-            try:
-                sim = sims.build(bcfg)
-            except Exception as e:
-                rec.violation("simulator-constructor-raises", f"{type(e).__name__}: {e} {meta}", {"meta": meta})
-                rec.case(None)
-                continue
+            if sib == "again":
+                if sim_first is None:
+                    continue
+                sim = sim_first
+            else:
+                try:
+                    sim = sims.build(bcfg)
+                except Exception as e:
+                    rec.violation("simulator-constructor-raises", f"{type(e).__name__}: {e} {meta}", {"meta": meta})
+                    rec.case(None)
+                    continue
+                if sib is None and sim_first is None:
+                    sim_first = sim
             prim = sims.primary(sim)
             lead = prim.shape[: prim.ndim - d]
             dx = float(sim.dx)
             slow = cfg.get("solver") == "fast_diagonalisation"
             nstate = (3 if slow else 6) if not thorough else (3 if slow else 8)
+            if sib is not None:
+                nstate = 2 if sib == "sibling" else 1
+            if d == 2:
+                permuted = shape[0] > shape[1]
+            else:
+                permuted = not (shape[0] <= shape[1] <= shape[2])
             for si in range(nstate):
                 fk = FIELD_KINDS[(si + ci) % len(FIELD_KINDS)] if si < 2 else str(rng.choice(FIELD_KINDS))
                 vk = VEL_KINDS[(si + 2 * ci) % len(VEL_KINDS)] if si < 2 else str(rng.choice(VEL_KINDS))
@@ -285,6 +308,12 @@ def _e2e(sh, rec):
                 after = prim.astype(np.float64)
                 s1 = after.sum(axis=axes_sp)
                 rec.count(f"e2e_steps_{kind}")
+                if permuted:
+                    rec.count("e2e_steps_tall_or_permuted_shape")
+                if sib == "sibling":
+                    rec.count("e2e_steps_sibling_same_shape_other_dx")
+                elif sib == "again":
+                    rec.count("e2e_steps_first_object_after_sibling")
                 if regime != "stable":
                     rec.count("e2e_steps_beyond_stability")
                 if cfg.get("forcing"):
@@ -295,7 +324,7 @@ def _e2e(sh, rec):
                     rec.count("e2e_steps_fast_diag")
                 if kind != "passive":
                     rec.count("e2e_steps_width0" if w == 0 else "e2e_steps_width_ge2")
-                rec.case((kind, repr(sorted(label.items())), fk, vk, regime), sample={**meta, "field": fk, "velocity": vk, "courant": cour, "diffusion_number": bnum, "rho": rho} if si == 0 else None)
+                rec.case((kind, repr(sorted(label.items())), fk, vk, regime, sib, permuted), sample={**meta, "field": fk, "velocity": vk, "courant": cour, "diffusion_number": bnum, "rho": rho} if si == 0 else None)
                 if not np.all(np.isfinite(after)):
                     rec.note(f"non-finite state after one step (courant {cour:.3g}, diffusion number {bnum:.3g}) {meta}")
                     rec.count("e2e_nonfinite_skipped")
@@ -408,12 +437,22 @@ def _faces(sh, rec):
     infos = [i for i in kernelspy.REG[n0:] if i.gen == gen.__name__]
     faces = _find_face_kernels(infos, d)
     rec.count("face_kernels_identified", 2 * len(faces))
-    nrep = (6 if d == 2 else 4) * (8 if thorough else 1)
+    nrep0 = 6 if d == 2 else 4
+    nrep = nrep0 * (8 if thorough else 1)
     for rep in range(nrep):
         if thorough and rep % 2:  # large grids: ~1e6 faces per pattern in the thorough tier
             shape = util.shape2d(rng, 300, 520) if d == 2 else util.shape3d(rng, 48, 72)
         else:
             shape = util.shape2d(rng, 7, 60) if d == 2 else util.shape3d(rng, 6, 22)
+        # both orientations on the SAME generated kernels: rep 0 tall / descending, rep 1 wide / ascending, rep 2 (3-D) x shortest
+        if rep % nrep0 == 0:
+            shape = tuple(sorted(shape, reverse=True))
+        elif rep % nrep0 == 1:
+            shape = tuple(sorted(shape))
+        elif rep % nrep0 == 2 and d == 3:
+            shape = (sorted(shape)[1], max(shape), min(shape))
+        if len(set(shape)) > 1:
+            rec.count("face_shapes_first_axis_longest" if shape[0] == max(shape) and shape[0] > shape[-1] else ("face_shapes_last_axis_longest" if shape[-1] == max(shape) and shape[-1] > shape[0] else "face_shapes_middle_axis_longest"))
         fkind = ("noise", "big", "checker", "smooth", "spikes", "const")[rep % 6]
         f = util.field(rng, shape, fkind, real_t)
         if fkind == "const":
@@ -427,7 +466,8 @@ def _faces(sh, rec):
                 for info, vn in ((fr, vn_f), (bk, vn_b)):
                     flux = np.zeros(shape, real_t)
                     f0, v0 = f.copy(), v.copy()
-                    info.callable(advection_flux=flux, field=f, inv_dx=1.0, **{vn: v})
+                    info.callable(advection_flux=flux, field=f, inv_dx=(1.0 if rep % 2 else real_t(1.0)), **{vn: v})
+                    rec.count("face_kernel_calls_scalar_python_float" if rep % 2 else "face_kernel_calls_scalar_real_t")
                     if not (util.bits_equal(f, f0) and util.bits_equal(v, v0)):
                         rec.violation("face-kernel-modified-input", f"axis {ax} {meta}", {"meta": meta})
                     outs.append(flux.astype(np.float64))
@@ -491,7 +531,7 @@ def _faces(sh, rec):
             inv = float(rng.choice([1.0, 7.3, 0.01]))
             flux = np.zeros(shape, real_t)
             try:
-                public(advection_flux=flux, field=fd, velocity=vel, inv_dx=inv)
+                public(advection_flux=flux, field=fd, velocity=vel, inv_dx=(real_t(inv) if q % 2 else inv))
             except Exception as e:
                 rec.violation("advection-flux-raises", f"{type(e).__name__}: {e} {meta}", {"meta": meta})
                 break
@@ -560,8 +600,9 @@ def _kern(sh, rec):
                 meta = {"op": f"diffusion_flux_{d}d", "reset": reset, "dtype": sh["dtype"], "shape": shape, "margin": m, "field": kind, "prefactor": pref}
                 f = _compact(rng, shape, m, kind, real_t)
                 flux = (rng.standard_normal(shape) * 1e3).astype(real_t) if reset else np.zeros(shape, real_t)
+                rec.count("kern_shapes_first_axis_longer_than_last" if shape[0] > shape[-1] else "kern_shapes_last_axis_longer_or_equal")
                 try:
-                    k(diffusion_flux=flux, field=f, prefactor=pref)
+                    k(diffusion_flux=flux, field=f, prefactor=(real_t(pref) if rep % 2 else pref))
                 except Exception as e:
                     rec.violation("diffusion-flux-raises", f"{type(e).__name__}: {e} {meta}", {"meta": meta})
                     continue
@@ -589,7 +630,7 @@ def _kern(sh, rec):
             w0 = util.field(rng, wshape, ("noise", "big", "const")[rep % 3], real_t)  # vorticity need not be compact for this kernel
             wv = w0.copy()
             try:
-                k(vorticity_field=wv, velocity_forcing_field=F, prefactor=pref)
+                k(vorticity_field=wv, velocity_forcing_field=F, prefactor=(real_t(pref) if rep % 2 else pref))
             except Exception as e:
                 rec.violation("forcing-update-raises", f"{type(e).__name__}: {e} {meta}", {"meta": meta})
                 continue
